@@ -15,7 +15,7 @@ pub const HORIZON: Duration = Duration::from_secs(10);
 pub const HANG_CAP: usize = 24;
 
 pub fn nworkers() -> usize {
-    std::env::var("RSV_WORKERS").ok().and_then(|s| s.parse().ok()).unwrap_or_else(|| std::thread::available_parallelism().map(|n| n.get()).unwrap_or(8))
+    std::env::var("RSV_WORKERS").ok().and_then(|s| s.parse().ok()).unwrap_or_else(|| 2 * std::thread::available_parallelism().map(|n| n.get()).unwrap_or(8)) // tasks spend part of their time waiting (thread spawn, pipes): two workers per core
 }
 
 pub struct Tier {
